@@ -13,10 +13,10 @@
 package c06
 
 import (
-	"hash/fnv"
 	"context"
 	"errors"
 	"fmt"
+	"hash/fnv"
 	"sort"
 	"strings"
 	"sync"
@@ -481,6 +481,37 @@ type outcome struct {
 	fallbacks int
 	maxGroup  int
 	committed bool
+	// check calls that were still unfinished when the pipeline call they belong to returned
+	outlived []string
+	// ... of which finished only when the message was over (policy stragglersFinishLast)
+	finishedAfterEnd int
+	// parallel groups (>= 2 members) of a connection/sender stage that was REPLAYED (run during RCPT or body)
+	replayedGroups int
+}
+
+// eventsOnClosedStates counts check events (a call, or the end of a call) on a state object
+// that was closed before.
+func eventsOnClosedStates(lg *mx.Log) int {
+	type key struct {
+		check string
+		state int
+	}
+	closedAt := map[key]bool{}
+	n := 0
+	for _, x := range lg.Events() {
+		if !strings.HasPrefix(x.Kind, "check.") || x.Kind == "check.init" || x.Kind == "check.early" {
+			continue
+		}
+		k := key{x.Target, x.Delivery}
+		if x.Kind == "check.close" {
+			closedAt[k] = true
+			continue
+		}
+		if closedAt[k] {
+			n++
+		}
+	}
+	return n
 }
 
 // vector is the accept/reject/quarantine outcome compared across orders and body paths.
@@ -559,7 +590,7 @@ func (sc *scenario) result(c int, v verdict, stage string) module.CheckResult {
 }
 
 // run executes the scenario once. lmtp selects the body path; rank gives the completion order.
-func (sc *scenario) run(lmtp bool, rank []int, useBarrier bool, ignoreAsNone bool, runID int) (*outcome, error) {
+func (sc *scenario) run(lmtp bool, rank []int, useBarrier bool, ignoreAsNone bool, runID int, policy stragglerPolicy) (*outcome, error) {
 	lg := mx.NewLog()
 	o := &outcome{log: lg}
 	rk := map[string]int{}
@@ -568,6 +599,7 @@ func (sc *scenario) run(lmtp bool, rank []int, useBarrier bool, ignoreAsNone boo
 	}
 	bar := newBarrier(rk)
 	bar.enabled = useBarrier
+	bar.policy = policy
 	rcptIdx := map[string]int{}
 	for i, r := range sc.rcpts {
 		rcptIdx[r] = i
@@ -624,7 +656,9 @@ func (sc *scenario) run(lmtp bool, rank []int, useBarrier bool, ignoreAsNone boo
 	}
 	pl.Hostname = "mx.c06.example"
 	o.drive(sc, pl, bar, lmtp, runID)
+	bar.finish() // nothing stays parked, whatever happened
 	o.groups, o.fallbacks, o.maxGroup = bar.groups, bar.fallbacks, bar.maxGroup
+	o.outlived, o.finishedAfterEnd, o.replayedGroups = bar.outlived, bar.lateFin, bar.replayedGroups
 	return o, nil
 }
 
@@ -632,21 +666,21 @@ func (o *outcome) drive(sc *scenario, pl *msgpipeline.MsgPipeline, bar *barrier,
 	ctx := context.Background()
 	meta := &module.MsgMetadata{ID: fmt.Sprintf("%s-r%d", sc.tag, runID), OriginalFrom: sc.sender, DontTraceSender: true}
 	var d module.Delivery
-	bar.around(func() { d, o.mailErr = pl.Start(ctx, meta, sc.sender) })
+	bar.around("MAIL", func() { d, o.mailErr = pl.Start(ctx, meta, sc.sender) })
 	if o.mailErr != nil {
 		return
 	}
 	accepted := 0
 	for _, r := range sc.rcpts {
 		var err error
-		bar.around(func() { err = d.AddRcpt(ctx, r, smtp.RcptOptions{}) })
+		bar.around("RCPT "+r, func() { err = d.AddRcpt(ctx, r, smtp.RcptOptions{}) })
 		o.rcptErr = append(o.rcptErr, err)
 		if err == nil {
 			accepted++
 		}
 	}
 	if accepted == 0 {
-		d.Abort(ctx)
+		bar.around("abort", func() { d.Abort(ctx) })
 		return
 	}
 	o.bodyRun = true
@@ -655,17 +689,17 @@ func (o *outcome) drive(sc *scenario, pl *msgpipeline.MsgPipeline, bar *barrier,
 	hdr.Add("Subject", "c06")
 	body := buffer.MemoryBuffer{Slice: []byte("hello\r\n")}
 	if !lmtp {
-		bar.around(func() { o.bodyErr = d.Body(ctx, hdr, body) })
+		bar.around("body", func() { o.bodyErr = d.Body(ctx, hdr, body) })
 		o.bodyOK = o.bodyErr == nil
 	} else {
 		pd, ok := d.(module.PartialDelivery)
 		if !ok {
 			o.bodyErr = errors.New("pipeline delivery does not implement PartialDelivery")
-			d.Abort(ctx)
+			bar.around("abort", func() { d.Abort(ctx) })
 			return
 		}
 		col := &statusCollector{st: map[string]error{}}
-		bar.around(func() { pd.BodyNonAtomic(ctx, col, hdr, body) })
+		bar.around("body", func() { pd.BodyNonAtomic(ctx, col, hdr, body) })
 		o.statuses = col.st
 		failed := 0
 		for i, r := range sc.rcpts {
@@ -676,11 +710,13 @@ func (o *outcome) drive(sc *scenario, pl *msgpipeline.MsgPipeline, bar *barrier,
 		o.bodyOK = failed == 0
 		o.mixedLMTP = failed != 0 && failed != accepted
 	}
+	// Commit/Abort close the check states. They run under the barrier too: a pipeline that waits
+	// there for calls that are still unfinished gets them finished (see barrier.coordinate).
 	if o.bodyOK || o.mixedLMTP {
-		d.Commit(ctx)
+		bar.around("commit", func() { d.Commit(ctx) })
 		o.committed = true
 	} else {
-		d.Abort(ctx)
+		bar.around("abort", func() { d.Abort(ctx) })
 	}
 }
 
@@ -1013,27 +1049,185 @@ func (sc *scenario) shape() string {
 	return strings.Join(parts, " ")
 }
 
+// groupP: index range of the scenarios built by forceParallelReplay.
+const groupP = 5_000_000
+
+// forceParallelReplay turns a focus scenario into one of the class "two checks that are first met
+// together, in ONE destination block, give a rejecting and/or quarantining verdict at the same
+// REPLAYED stage (connection or sender), and the next recipient is routed to a block that
+// references only one of them". The two calls run in parallel; what the slower one says must
+// not get lost, whatever the faster one says. Everything else stays as drawn.
+func (sc *scenario) forceParallelReplay(p *prng.R) {
+	b1, b2 := sc.rcptDst[0], sc.rcptDst[1] // differ (focus)
+	perm := p.Perm(sc.k)
+	x, y := perm[0], perm[1]
+	slot := func(d int) int { return sc.slotIndex("destination", sc.sel, d) }
+	for _, c := range []int{x, y} {
+		for i := range sc.place[c] {
+			sc.place[c][i] = false
+		}
+	}
+	sc.place[x][slot(b1)] = true
+	sc.place[y][slot(b1)] = true
+	sc.place[y][slot(b2)] = true
+	if b3 := 3 - b1 - b2; p.Chance(1, 3) {
+		sc.place[prng.Pick(p, []int{x, y})][slot(b3)] = true
+	}
+	pairs := [][2]verdict{{vReject, vQuarantine}, {vReject, vQuarantine}, {vReject, vQuarantine}, {vQuarantine, vReject}, {vReject, vReject}, {vQuarantine, vQuarantine}, {vReject, vIgnore}}
+	pr := prng.Pick(p, pairs)
+	if p.Bool() {
+		sc.conn[x], sc.conn[y] = pr[0], pr[1]
+		// the sender stage of y is replayed later, alone or beside other checks
+		if p.Chance(2, 3) {
+			sc.snd[y] = vNone
+		}
+	} else {
+		sc.conn[x], sc.conn[y] = vNone, vNone
+		sc.snd[x], sc.snd[y] = pr[0], pr[1]
+	}
+	// the later recipient is mostly acceptable to y
+	if p.Chance(5, 6) {
+		sc.rcptV[y][1] = verdict(p.Weighted([]int{4, 1, 1, 0}))
+	}
+	if p.Chance(2, 3) {
+		sc.body[y] = verdict(p.Weighted([]int{4, 1, 1, 0}))
+	}
+	// the other checks mostly keep out of the way of these two commands
+	for c := 0; c < sc.k; c++ {
+		if c == x || c == y || p.Chance(1, 3) {
+			continue
+		}
+		if sc.conn[c] == vReject {
+			sc.conn[c] = vNone
+		}
+		if sc.snd[c] == vReject {
+			sc.snd[c] = vNone
+		}
+		for i := range sc.rcptV[c] {
+			if sc.rcptV[c][i] == vReject {
+				sc.rcptV[c][i] = vNone
+			}
+		}
+	}
+}
+
+// parallelReplayClass classifies the (normalised) scenario: mixed = number of (recipient, stage)
+// points at which >= 2 destination-scoped checks are first met together and have their
+// connection/sender stage replayed side by side with at least one reject or quarantine verdict
+// among them; rq = those of them where one check rejects, another one quarantines, and a LATER
+// accepted recipient is routed to a block that references the quarantining check but not the
+// rejecting one, in a message that is accepted (so the flag is judged at the targets).
+func (sc *scenario) parallelReplayClass(e *expectation) (rq, mixed int) {
+	if e.mailRefused {
+		return 0, 0
+	}
+	for i := range sc.rcpts {
+		// the destination block's checks are only reached if no message-scoped check refuses the recipient
+		reached := true
+		var fresh []int
+		for c := 0; c < sc.k; c++ {
+			if e.msgScope[c] {
+				if sc.rcptV[c][i] == vReject {
+					reached = false
+				}
+				continue
+			}
+			if !e.dstScope[c][i] {
+				continue
+			}
+			seen := false
+			for j := 0; j < i; j++ {
+				if e.dstScope[c][j] {
+					seen = true
+				}
+			}
+			if !seen {
+				fresh = append(fresh, c)
+			} else if sc.conn[c] == vReject || sc.snd[c] == vReject {
+				reached = false // refused for good before anything is replayed
+			}
+		}
+		if !reached || len(fresh) < 2 {
+			continue
+		}
+		stages := [][]verdict{sc.conn}
+		connRejected := false
+		for _, c := range fresh {
+			if sc.conn[c] == vReject {
+				connRejected = true
+			}
+		}
+		if !connRejected {
+			stages = append(stages, sc.snd)
+		}
+		for _, st := range stages {
+			hasVerdict := false
+			for _, c := range fresh {
+				if st[c] == vReject || st[c] == vQuarantine {
+					hasVerdict = true
+				}
+			}
+			if !hasVerdict {
+				continue
+			}
+			mixed++
+			found := false
+			for _, x := range fresh {
+				for _, y := range fresh {
+					if st[x] != vReject || st[y] != vQuarantine {
+						continue
+					}
+					for j := i + 1; j < len(sc.rcpts); j++ {
+						if e.dstScope[y][j] && !e.dstScope[x][j] && !e.rcptRefused[j] && !e.bodyRefused {
+							found = true
+						}
+					}
+				}
+			}
+			if found {
+				rq++
+			}
+		}
+	}
+	return rq, mixed
+}
+
 func TestVerif(t *testing.T) {
 	r := rep.Open("C06")
 	defer r.Close()
 
 	n := r.N(400, 15000)
 	nFocus := r.N(300, 10000) // group S: shared destination checks, replayed-stage verdicts
-	for ci := 0; ci < n+nFocus; ci++ {
-		i, focus, id := ci, false, fmt.Sprintf("placement-%d", ci)
-		if ci >= n {
+	nPar := r.N(150, 4000)    // group P: differing verdicts side by side at one replayed stage
+	for ci := 0; ci < n+nFocus+nPar; ci++ {
+		i, focus, par, id := ci, false, false, fmt.Sprintf("placement-%d", ci)
+		if ci >= n+nFocus {
+			i, focus, par, id = groupP+ci-n-nFocus, true, true, fmt.Sprintf("parallel-replayed-stage-%d", ci-n-nFocus)
+		} else if ci >= n {
 			i, focus, id = groupS+ci-n, true, fmt.Sprintf("shared-destination-checks-%d", ci-n)
 		}
 		r.Run(i, id, func(c *rep.Case) {
 			p := prng.New(r.Seed(), uint64(i), "c06")
 			tag := fmt.Sprintf("c06a%d", i)
-			if focus {
+			switch {
+			case par:
+				tag = fmt.Sprintf("c06p%d", i-groupP)
+			case focus:
 				tag = fmt.Sprintf("c06s%d", i-groupS)
 				r.Count("focus_cases_shared_destination_checks", 1)
 			}
 			sc := genScenario(p, tag, focus)
+			if par {
+				sc.forceParallelReplay(prng.New(r.Seed(), uint64(i), "c06-parallel-replay"))
+			}
 			sc.normalise()
 			e := sc.model()
+			if rq, mixed := sc.parallelReplayClass(e); mixed > 0 {
+				r.Count("cases_differing_verdicts_side_by_side_at_replayed_stage", 1)
+				if rq > 0 {
+					r.Count("cases_replayed_stage_reject_beside_quarantine_then_block_with_quarantining_check_only", 1)
+				}
+			}
 			perms := permutations(sc.k)
 			var runs []runRes
 			runID := 0
@@ -1045,29 +1239,57 @@ func TestVerif(t *testing.T) {
 					path = "lmtp-body"
 				}
 				for _, perm := range perms {
-					runID++
-					o, err := sc.run(lmtp, perm, true, false, runID)
-					if err != nil {
-						t.Fatalf("%v", err)
-					}
-					r.Count("executions", 1)
-					r.Count("barrier_fallbacks", int64(o.fallbacks))
-					for _, g := range o.groups {
-						r.Distinct("completion_orders_observed", g[:strings.Index(g, ":")]+":"+anonymise(g[strings.Index(g, ":")+1:], sc))
-						r.Count("parallel_groups_ordered", 1)
-					}
 					ord := fmt.Sprint(perm)
-					for _, f := range sc.judge(o, e, path, r) {
-						if reported[f.sig] {
-							continue
+					// one execution; returns whether a check call outlived the pipeline call it belongs to
+					exec := func(policy stragglerPolicy) bool {
+						runID++
+						o, err := sc.run(lmtp, perm, true, false, runID, policy)
+						if err != nil {
+							t.Fatalf("%v", err)
 						}
-						reported[f.sig] = true
-						w := sc.describe()
-						w["path"], w["completion_rank"], w["log"] = path, ord, o.log.Strings(80)
-						w["outcome"] = o.vector(sc)
-						c.Violation(f.sig, f.what, w)
+						r.Count("executions", 1)
+						r.Count("barrier_fallbacks", int64(o.fallbacks))
+						for _, g := range o.groups {
+							r.Distinct("completion_orders_observed", g[:strings.Index(g, ":")]+":"+anonymise(g[strings.Index(g, ":")+1:], sc))
+							r.Count("parallel_groups_ordered", 1)
+						}
+						r.Count("parallel_groups_ordered_at_replayed_conn_or_sender_stage", int64(o.replayedGroups))
+						if n := eventsOnClosedStates(o.log); n > 0 {
+							// the statement does not speak about Close: observed, not judged
+							r.Count("check_events_on_closed_state_not_judged", int64(n))
+						}
+						if len(o.outlived) > 0 {
+							r.Count("executions_with_check_calls_outliving_their_command", 1)
+							r.Count("check_calls_outliving_their_command", int64(len(o.outlived)))
+							r.Count("check_calls_finished_after_the_message", int64(o.finishedAfterEnd))
+						}
+						for _, f := range sc.judge(o, e, path, r) {
+							if reported[f.sig] {
+								continue
+							}
+							reported[f.sig] = true
+							w := sc.describe()
+							w["path"], w["completion_rank"], w["log"] = path, ord, o.log.Strings(80)
+							w["outcome"] = o.vector(sc)
+							if len(o.outlived) > 0 {
+								w["check_calls_outliving_their_command"] = anonymiseAll(o.outlived, sc)
+								w["straggler_policy"] = policy.String()
+							}
+							c.Violation(f.sig, f.what, w)
+						}
+						rr := runRes{Path: path, Order: ord, Vec: o.vector(sc)}
+						if len(o.outlived) > 0 {
+							rr.Unfinished = anonymiseAll(o.outlived, sc)
+							rr.Policy = policy.String()
+						}
+						runs = append(runs, rr)
+						return len(o.outlived) > 0
 					}
-					runs = append(runs, runRes{path, ord, o.vector(sc)})
+					if exec(stragglersFinishAfterCommand) {
+						// A slower check finishes at some later time: right after the command was
+						// answered (above) or, the other extreme, when the message is over.
+						exec(stragglersFinishLast)
+					}
 				}
 			}
 			// same outcome for every completion order and over both body paths
@@ -1081,6 +1303,11 @@ func TestVerif(t *testing.T) {
 					sig += "between-smtp-and-lmtp-body-paths"
 				default:
 					sig += "between-completion-orders"
+					if anyUnfinished(runs) {
+						// cause class: the command was answered while a check was still running, what
+						// that check says then depends on when it finishes
+						sig += "/check-still-running-when-command-answered"
+					}
 				}
 				if !reported[sig] {
 					reported[sig] = true
@@ -1093,7 +1320,7 @@ func TestVerif(t *testing.T) {
 			// an ignore action changes nothing
 			if hasIgnore {
 				runID++
-				o, err := sc.run(false, perms[0], false, true, runID)
+				o, err := sc.run(false, perms[0], false, true, runID, stragglersFinishAfterCommand)
 				if err != nil {
 					t.Fatalf("%v", err)
 				}
@@ -1103,7 +1330,7 @@ func TestVerif(t *testing.T) {
 					c.Violation("ignore-changes-outcome", fmt.Sprintf("with the ignore verdicts replaced by no verdict the outcome is %q, with them %q", v, runs[0].Vec), w)
 				}
 			}
-			if i < 3 || (focus && i < groupS+2) {
+			if i < 3 || (focus && !par && i < groupS+2) || (par && i < groupP+2) {
 				r.Sample(sc.describe())
 			}
 			nontrivial := stagesOf(sc, func(v verdict) bool { return v != vNone }) != ""
@@ -1127,9 +1354,31 @@ func TestVerif(t *testing.T) {
 }
 
 type runRes struct {
-	Path  string `json:"path"`
-	Order string `json:"completion_rank"`
-	Vec   string `json:"outcome"`
+	Path       string   `json:"path"`
+	Order      string   `json:"completion_rank"`
+	Vec        string   `json:"outcome"`
+	Unfinished []string `json:"check_calls_outliving_their_command,omitempty"`
+	Policy     string   `json:"straggler_policy,omitempty"`
+}
+
+func anyUnfinished(runs []runRes) bool {
+	for _, x := range runs {
+		if len(x.Unfinished) > 0 {
+			return true
+		}
+	}
+	return false
+}
+
+func anonymiseAll(l []string, sc *scenario) []string {
+	out := make([]string, len(l))
+	for i, s := range l {
+		for c := 0; c < sc.k; c++ {
+			s = strings.ReplaceAll(s, sc.checkName(c), fmt.Sprintf("C%d", c))
+		}
+		out[i] = s
+	}
+	return out
 }
 
 func sameWithinPath(runs []runRes) bool {
